@@ -140,6 +140,10 @@ pub fn c02(r: &mut Rng, sz: &Sizes, out: &mut Vec<String>) {
     for (a, b) in pairs(r, sz) {
         out.push(format!("subset\t{}\t{}", sx(&a), sx(&b)));
     }
+    for (a, b) in oneof_wraps() {
+        out.push(format!("subset\t{}\t{}", sx(&a), sx(&b)));
+        out.push(format!("subset\t{}\t{}", sx(&b), sx(&a)));
+    }
     // (shape, text) pairs: the shape is inferred from a related history
     for _ in 0..sz.docs {
         let h = rand_history(r, &DKEYS[..12]);
@@ -155,6 +159,60 @@ pub fn c02(r: &mut Rng, sz: &Sizes, out: &mut Vec<String>) {
     }
 }
 
+/// every kind of shape, optional and not, against one and two layers of `OneOf` around a variant it fits
+/// (as is, made optional, made non-optional), with each layer's own flag and with / without a `Null`
+/// variant beside it: where the permission for null comes from is the whole question
+pub fn oneof_wraps() -> Vec<(JsonShape, JsonShape)> {
+    let n = JsonShape::Number { optional: false };
+    let st = JsonShape::String { optional: false };
+    let b = JsonShape::Bool { optional: false };
+    let lefts = vec![
+        n.clone(),
+        obj(vec![("a", n.clone())], false),
+        obj(vec![], false),
+        arr(n.clone(), false),
+        tup(vec![n.clone(), st.clone()], false),
+        one_of(vec![n.clone(), st.clone()], false),
+    ];
+    let mut out = Vec::new();
+    for l in &lefts {
+        let wider = match l {
+            JsonShape::Object { .. } => obj(vec![("a", JsonShape::Number { optional: true })], false),
+            JsonShape::Array { .. } => arr(one_of(vec![n.clone(), st.clone()], false), false),
+            other => other.clone(),
+        };
+        for lo in [false, true] {
+            let a = if lo { json_shape::verif::as_optional(l.clone()) } else { l.clone() };
+            for inner in [l.clone(), json_shape::verif::as_optional(l.clone()), wider.clone(), json_shape::verif::as_optional(wider.clone())] {
+                for f1 in [false, true] {
+                    for null1 in [false, true] {
+                        let mut v1 = vec![inner.clone(), b.clone()];
+                        if null1 {
+                            v1.push(JsonShape::Null);
+                        }
+                        let w1 = one_of(v1, f1);
+                        out.push((a.clone(), w1.clone()));
+                        out.push((a.clone(), arr(w1.clone(), false)));
+                        for f2 in [false, true] {
+                            for null2 in [false, true] {
+                                let mut v2 = vec![w1.clone(), st.clone()];
+                                if null2 {
+                                    v2.push(JsonShape::Null);
+                                }
+                                let w2 = one_of(v2, f2);
+                                out.push((a.clone(), w2.clone()));
+                                let w3 = one_of(vec![w2.clone(), JsonShape::Bool { optional: true }], false);
+                                out.push((a.clone(), w3));
+                            }
+                        }
+                    }
+                }
+            }
+        }
+    }
+    out
+}
+
 /// Documents for the single-document inference ops, each in a random formatting style.
 fn docs(r: &mut Rng, sz: &Sizes) -> Vec<J> {
     let mut out = vec![
@@ -167,9 +225,40 @@ fn docs(r: &mut Rng, sz: &Sizes) -> Vec<J> {
         J::Arr(vec![J::Null, J::Null]),
         J::Arr(vec![J::Arr(vec![]), J::Num("1".into())]),
     ];
+    out.extend(conflict_docs());
     for i in 0..sz.docs {
         let depth = i % 5;
         out.push(rand_doc(r, depth, DKEYS));
+    }
+    out
+}
+
+/// arrays of objects whose elements disagree about one key: the key absent from the first element and
+/// two later elements giving it every ordered pair of value kinds (which of them the inferred shape keeps
+/// is decided by element order, nothing else), and the key present everywhere with every ordered triple
+pub fn conflict_docs() -> Vec<J> {
+    let vals = ["1", "\"x\"", "true", "null", "[1]", "[\"x\"]", "{\"b\":1}", "[1,\"x\"]", "[]", "{}"];
+    let mut out = Vec::new();
+    for first in ["{\"id\":1}", "{}"] {
+        for v1 in vals {
+            for v2 in vals {
+                out.push(parse_j(&format!("[{first},{{\"id\":2,\"tag\":{v1}}},{{\"id\":3,\"tag\":{v2}}}]")));
+            }
+        }
+    }
+    for v0 in &vals[..6] {
+        for v1 in &vals[..6] {
+            for v2 in &vals[..6] {
+                out.push(parse_j(&format!("[{{\"tag\":{v0}}},{{\"tag\":{v1}}},{{\"tag\":{v2}}}]")));
+            }
+        }
+    }
+    // the same below a member and below another array
+    for v1 in &vals[..8] {
+        for v2 in &vals[..8] {
+            out.push(parse_j(&format!("{{\"rows\":[{{\"id\":1}},{{\"tag\":{v1}}},{{\"tag\":{v2}}},{{\"tag\":{v1}}}]}}")));
+            out.push(parse_j(&format!("[[{{\"id\":1}},{{\"tag\":{v1}}},{{\"tag\":{v2}}}],[{{\"id\":1}},{{\"tag\":{v2}}},{{\"tag\":{v1}}}]]")));
+        }
     }
     out
 }
@@ -456,6 +545,38 @@ pub fn c09(r: &mut Rng, sz: &Sizes, out: &mut Vec<String>) {
         let hexes: Vec<String> = h.iter().map(|d| hex_doc(d, r.below(4))).collect();
         out.push(format!("p_c09\t{k}\t{}\t!ok *", hexes.join("\t")));
     }
+    // groups of documents fed over and over in turn (a, b, a, b, ...): every ordered pair and a sample of
+    // triples of the fixed documents, each also below a member and below an array; random groups
+    let fixed = cycle_docs();
+    let hx = |d: &String| crate::wire::hex(d.as_bytes());
+    for a in &fixed {
+        for b in &fixed {
+            if a != b {
+                out.push(format!("p_cycle\t{}\t{}", hx(a), hx(b)));
+                out.push(format!("p_cycle\t{}\t{}", hx(&format!("{{\"k\":{a}}}")), hx(&format!("{{\"k\":{b}}}"))));
+                out.push(format!("p_cycle\t{}\t{}", hx(&format!("[{a},1]")), hx(&format!("[{b},1]"))));
+            }
+        }
+    }
+    for _ in 0..sz.histories / 4 {
+        let n = 2 + r.below(2);
+        let g: Vec<String> = (0..n).map(|_| hx(r.pick(&fixed))).collect();
+        out.push(format!("p_cycle\t{}", g.join("\t")));
+        let h = rand_history(r, DKEYS);
+        let hexes: Vec<String> = h.iter().map(|d| hex_doc(d, 0)).collect();
+        out.push(format!("p_cycle\t{}", hexes.join("\t")));
+    }
+}
+
+pub fn cycle_docs() -> Vec<String> {
+    [
+        "null", "1", "\"x\"", "[]", "[null]", "[null,null]", "[1]", "[1,2]", "[1,\"x\"]", "[\"x\",1]", "[1,\"x\",true]", "[[1],[2]]",
+        "[[1],\"x\"]", "[[],1]", "[{}]", "[{\"a\":1}]", "[{\"a\":1},{}]", "{}", "{\"a\":1}", "{\"a\":null}", "{\"a\":[1,\"x\"]}", "{\"a\":[]}",
+        "[true,null]", "[[1,\"x\"]]", "[[null]]",
+    ]
+    .iter()
+    .map(|s| s.to_string())
+    .collect()
 }
 
 pub fn c11(r: &mut Rng, sz: &Sizes, out: &mut Vec<String>) {
